@@ -280,7 +280,7 @@ def gen_profiles(thorough):
     p.append(dict(name="bfs_restart", mode="bfs", sample=None,
                   consts=dict(Node="{1}", BaseName='{"a"}', Kinds='{"index"}', Types='{"create","delete"}',
                               MaxReq=5, MaxRestart=1), depth=5))
-    p.append(dict(name="bfs_rename_restart", mode="bfs", sample=None if thorough else 100,
+    p.append(dict(name="bfs_rename_restart", mode="bfs", sample=None,
                   consts=dict(Node="{1,2}" if thorough else "{1}", BaseName='{"a","b"}', Kinds='{"index","virtual"}',
                               Types='{"create","rename"}', MaxReq=3, MaxRestart=1), depth=3))
     # two CreateMany calls inside one caller transaction
@@ -289,11 +289,11 @@ def gen_profiles(thorough):
                               Kinds='{"index","virtual","free"}', Types='{"create"}',
                               Chain="TRUE", MaxReq=2), depth=2))
     # wide random walks
-    p.append(dict(name="sim3", mode="sim", num=700 if thorough else 120,
+    p.append(dict(name="sim3", mode="sim", num=2500 if thorough else 400,
                   consts=dict(Node="{1,2,3}", BaseName='{"a","b","c"}', ExtraName='{"a_time"}', Kinds=allk,
                               Opts=opts, MaxBatch=2, MaxReq=5, MaxCtr=24, MaxRestart=1, Chain="TRUE"),
                   depth=5))
-    p.append(dict(name="sim2", mode="sim", num=700 if thorough else 120,
+    p.append(dict(name="sim2", mode="sim", num=2500 if thorough else 400,
                   consts=dict(Node="{1,2}", BaseName='{"a","b"}', ExtraName='{"a_time"}', Kinds=allk,
                               Opts=opts, MaxBatch=3 if thorough else 2, MaxReq=6 if thorough else 4, MaxCtr=30,
                               MaxRestart=0, Chain="TRUE"),
@@ -305,7 +305,7 @@ def gen_profiles(thorough):
         p.append(dict(name="bfs3_calc", mode="bfs", sample=4000,
                       consts=dict(BaseName='{"a"}', ExtraName='{"a_time"}', Kinds='{"index","virtual","calc"}',
                                   Opts='{"plain","overwrite"}', Types='{"create","delete"}', MaxReq=3), depth=3))
-        p.append(dict(name="sim1", mode="sim", num=500,
+        p.append(dict(name="sim1", mode="sim", num=1500,
                       consts=dict(Node="{1}", BaseName='{"a","b"}', ExtraName='{"a_time"}', Kinds=allk,
                                   Opts=opts, MaxBatch=3, MaxReq=7, MaxCtr=40, MaxRestart=2, Chain="TRUE"),
                       depth=7))
